@@ -42,6 +42,14 @@ func genCase(t *rapid.T) Case {
 	if rapid.IntRange(0, 2).Draw(t, "res") == 0 {
 		c.Resolvers = append(c.Resolvers, g.GenResolver(t))
 	}
+	if rapid.IntRange(0, 5).Draw(t, "selfext") == 0 {
+		// a setting that extends the equally named variable a resolver provides
+		k := rapid.SampledFrom([]string{"a", "b", "c", "d"}).Draw(t, "selfk")
+		self := vx.Part{IsVar: true, Name: []vx.Part{{Lit: k}}}
+		parts := [][]vx.Part{{self, {Lit: ":/usr"}}, {{Lit: "pre-"}, self}, {self, {Lit: ","}, self}, {self}, {{Lit: "x"}, self, {Lit: "y"}}}
+		c.Root.Put(k, &vx.Node{K: "expr", Expr: rapid.SampledFrom(parts).Draw(t, "selfparts")})
+		c.Resolvers = append(c.Resolvers, []vx.KV{{K: k, V: rapid.SampledFrom([]string{"rv", "5", "/from/resolver", "p,q", "true"}).Draw(t, "selfval")}})
+	}
 	vx.Lighten(weightLimit, append([]*vx.Node{c.Root}, c.Envs...)...)
 	return c
 }
@@ -138,6 +146,16 @@ func runCase(c Case, r *runlog.R) error {
 			anyCycle = true
 			nt = true
 			if w.Absorbed || werr != vx.ErrCyclic {
+				if !w.Swallowed && len(w.Uses) == 1 && setting.K == "expr" {
+					// the statement's own case: a setting that extends the equally named variable (search:
+					// "${search}:/usr/lib") - the only name it uses is re-entered and a resolver that knows the name
+					// absorbs that, no operator is involved: nothing else was evaluated before, the value is the model's
+					if (werr == nil) != (gerr == nil) || (werr == nil && !canon.EqualData(got, want)) {
+						return fmt.Errorf("field %q uses only one name, re-enters it and a resolver that knows the name absorbs that: got %s / %v, want %s / %v", k, canon.Show(got), gerr, canon.Show(want), werr)
+					}
+					r.Class("self-extending setting absorbed by a resolver (value compared)")
+					continue
+				}
 				// a resolver or an operator may absorb the re-entry: the value depends on what was active around the inner
 				// evaluation; termination, typed errors (above) and determinism (C09) are asserted, not the value
 				r.Class("cycle possibly absorbed (termination only)")
@@ -501,7 +519,7 @@ func siblingsVariant(cfg *ucfg.Config, c Case, w *vx.World, opts []ucfg.Option, 
 
 var subCycles = runlog.Register(&runlog.Sub[Case]{
 	Name:    "reference-graphs",
-	Rule:    "reference graphs over settings a-d, o{x,y}, l[2] with names drawn mostly from the own tree (self references, ancestor/descendant references through the object o, chains, diamonds, the same name several times in one string, references inside names and defaults), optionally an Env config and a resolver that can absorb a cycle. Every read entry point (typed getters, Child, Has, CountField, Unpack, use as merge source, FlattenedKeys, CompareConfigs) must return with typed errors; a field whose evaluation never re-enters a reference must yield the model's value (never a cyclic-reference error), read alone and together with all its siblings as fields of one struct; a field that must re-enter one while nothing can absorb it must fail with a cyclic-reference error. Non-trivial: the evaluation of some field dereferences a name more than once (repeated use / diamond) or re-enters a reference (cycle). Distinct: hash of the case.",
+	Rule:    "reference graphs over settings a-d, o{x,y}, l[2] with names drawn mostly from the own tree (self references, ancestor/descendant references through the object o, chains, diamonds, the same name several times in one string, references inside names and defaults), optionally an Env config and a resolver that can absorb a cycle. Every read entry point (typed getters, Child, Has, CountField, Unpack, use as merge source, FlattenedKeys, CompareConfigs) must return with typed errors; a field whose evaluation never re-enters a reference must yield the model's value (never a cyclic-reference error), read alone and together with all its siblings as fields of one struct; a field that must re-enter one while nothing can absorb it must fail with a cyclic-reference error (also when it is only walked through: k.zz, element 1 of k); a setting that extends the equally named variable of a resolver (one case in six plants one) must yield the model's value. Non-trivial: the evaluation of some field dereferences a name more than once (repeated use / diamond) or re-enters a reference (cycle). Distinct: hash of the case.",
 	Gen:     genCase,
 	Run:     runCase,
 	Journal: true,
